@@ -67,7 +67,7 @@ def specOp (ws : List String) : Option String :=
       some (HeadRes.fmt (decodeHead (getA a 0) a.size))
   | ["DECODE", lz, l, h] => do
       let a ← parseHex h; let L ← l.toNat?
-      let r := Spec.decode (lz == "1") L (fun i => a.getD i 0) a.size
+      let r := Spec.decode (lz == "1") L (fun _ => true) (fun i => a.getD i 0) a.size
       some (match r with
         | .ok x n => s!"OK {fmtItem x} {n}"
         | .nodata => "NODATA"
